@@ -39,13 +39,13 @@ ASSUMPTIONS = [
     "integrand edits count only when the interpreter finds different values at two random points",
 ]
 BUDGET = {"quick": {"examples": 2500, "seconds": 70}, "thorough": {"examples": 80000, "seconds": 1500}}
-LABEL_FLOORS = {"quick": {"pair:different": 900, "edit:md_array": 100, "edit:element": 100, "rebuild": 2000}}
+LABEL_FLOORS = {"quick": {"pair:different": 900, "edit:md_array": 60, "edit:element": 50, "rebuild": 2000}}
 CASE_TIMEOUT = {"quick": 20, "thorough": 60}
 
 OPS = {"arith", "math", "cond", "index", "tensor", "compound", "deriv", "pow", "abs", "var", "sign"}
 PROF = Profile(ops=OPS, leaves={"coef", "const", "lit", "x", "geo", "eye"}, max_rank=2, elements="all", manifolds=True,
                args=((0, "any"), (1, "any")))
-EDITS = ["literal", "literal", "fixed_index", "index_pattern", "index_pattern", "operator", "operator", "swap_operands", "element", "element", "cell", "gdim",
+EDITS = ["field_mesh", "field_mesh", "integral_mesh", "literal", "literal", "fixed_index", "index_pattern", "index_pattern", "operator", "operator", "swap_operands", "element", "element", "cell", "gdim",
          "itype", "sid", "md_value", "md_value", "md_array", "md_array", "md_key"]
 MDS = [{}, {"quadrature_degree": 2}, {"quadrature_degree": 3, "scheme": "default"}, {"tol": 0.1234567890123},
        {"opts": {"a": 1, "b": [1, 2, 3]}}, {"quadrature_rule": "custom", "points": {"__array__": [3, 1, None, 0]}},
@@ -57,6 +57,12 @@ MDS = [{}, {"quadrature_degree": 2}, {"quadrature_degree": 3, "scheme": "default
 @st.composite
 def cases(draw, tier):
     world = draw(worlds(PROF))
+    nmesh = draw(st.sampled_from([1, 1, 2, 3]))
+    world["nmesh"] = nmesh
+    if nmesh > 1:
+        for n_, f_ in world["fields"].items():
+            if f_["kind"] in ("coef", "const"):
+                f_["mesh"] = draw(st.integers(0, nmesh - 1))
     G = Gen(draw, world, PROF)
     L = LinGen(G)
     nargs = draw(st.sampled_from([0, 1, 2]))
@@ -66,7 +72,7 @@ def cases(draw, tier):
     integrals = []
     for _ in range(draw(st.sampled_from([1, 1, 2, 3]))):
         integrals.append({"itype": draw(st.sampled_from(["dx", "dx", "ds"])), "sid": draw_sid(draw), "md": draw(st.sampled_from(MDS)),
-                          "expr": L.term(argnames, draw(st.integers(1, 2)))})
+                          "mesh": draw(st.integers(0, nmesh - 1)), "expr": L.term(argnames, draw(st.integers(1, 2)))})
     return {"world": world, "vars": G.vars, "integrals": integrals, "edit": draw(st.sampled_from(EDITS)),
             "edit_seed": draw(st.integers(0, 10**6)), "noise": draw(st.integers(0, 40)), "env_seed": draw(st.integers(0, 10**6))}
 
@@ -135,6 +141,22 @@ def apply_edit(case, rng):
         ix[q] = (ix[q] + 1) % g
         itg["expr"] = put(itg["expr"], p, [node[0], node[1], ix])
         return c, "integrand"
+    if e in ("field_mesh", "integral_mesh"):
+        w = c["world"]
+        nm = int(w.get("nmesh", 1))
+        if nm < 2:
+            return None
+        if e == "integral_mesh":
+            itg["mesh"] = (int(itg.get("mesh", 0)) + 1 + int(rng.integers(0, nm - 1))) % nm
+            c["_edited"] = ["integral", k]
+        else:
+            used = [n for n, f in w["fields"].items() if f["kind"] in ("coef", "const") and str(["fld", n]) in str(c["integrals"])]
+            if not used:
+                return None
+            n = used[int(rng.integers(0, len(used)))]
+            w["fields"][n]["mesh"] = (int(w["fields"][n].get("mesh", 0)) + 1 + int(rng.integers(0, nm - 1))) % nm
+            c["_edited"] = ["field", n]
+        return c, "meshes"
     if e == "index_pattern":
         # exchange two entries of one index list (a fixed index with a free one, or two different entries)
         g = c["world"]["gdim"]
@@ -290,6 +312,28 @@ def apply_edit(case, rng):
     return None
 
 
+def mesh_description(case, perm):
+    """what the form says about meshes, with mesh k renamed perm[k]: used fields -> mesh, integrals with their mesh"""
+    import json
+
+    used = sorted(n for n, f in case["world"]["fields"].items() if str(["fld", n]) in str(case["integrals"]) or
+                  any(str(["fld", n]) in str(v) for v in case.get("vars", ())))
+    fields = {n: perm[int(case["world"]["fields"][n].get("mesh", 0))] for n in used if case["world"]["fields"][n]["kind"] != "arg"}
+    args = {n: perm[int(case["world"]["fields"][n].get("mesh", 0))] for n in used if case["world"]["fields"][n]["kind"] == "arg"}
+    itgs = sorted(json.dumps([perm[int(i.get("mesh", 0))], i["itype"], i["sid"], i["md"], i["expr"]], sort_keys=True) for i in case["integrals"])
+    dumped = json.dumps([case["integrals"], case.get("vars", [])])
+    geo = '["x"]' in dumped or '["geo"' in dumped  # (x and geometric quantities belong to mesh 0)
+    return json.dumps([fields, args, itgs, perm[0] if geo else None], sort_keys=True)
+
+
+def mesh_equivalent(c1, c2):
+    import itertools
+
+    nm = int(c1["world"].get("nmesh", 1))
+    d1 = mesh_description(c1, list(range(nm)))
+    return any(mesh_description(c2, list(p)) == d1 for p in itertools.permutations(range(nm)))
+
+
 def noise(n):
     import ufl
 
@@ -350,6 +394,18 @@ def check_case(case):
     if s2 is None:
         return {"nontrivial": False, "labels": labels + ["edit-empties-form"]}
     provable = kind == "data"
+    if kind == "meshes":
+        provable = not mesh_equivalent(case, c2)
+        # ... and the edited entity must have survived construction (f**0, grad of a constant, ... fold away)
+        from ufl.classes import Zero
+        from ufl.corealg.traversal import traverse_unique_terminals
+
+        what, which = c2["_edited"]
+        if what == "integral":
+            provable = provable and which < len(fe1[1]) and not isinstance(fe1[1][which], Zero) and not isinstance(fe2[1][which], Zero)
+        else:
+            t1 = b1.fields[which]
+            provable = provable and any(t is t1 or t == t1 for x in fe1[1] for t in traverse_unique_terminals(x))
     form1, ex1 = fe1
     form2, ex2 = fe2
     if case["edit"] == "element":
